@@ -224,7 +224,7 @@ class InputOutputControlByIdentifier(BaseService):
         if ioconfig is None:
             raise ValueError("IoConfig must be defined")
 
-        min_response_size = 2 if control_param is not None else 1  # Spec specifies that if first byte is a ControlParameter, it must be echoed back by the server
+        min_response_size = 3 if control_param is not None else 2  # DID echo (2 bytes). Spec specifies that if first byte is a ControlParameter, it must be echoed back by the server
 
         if len(response.data) < min_response_size:
             raise InvalidResponseException(response, "Response must be at least %d bytes long" % min_response_size)
